@@ -152,6 +152,79 @@ def run(ctx):
             ctx.notes.setdefault("declarator_tree_differs_from_printer_examples", [])
             if nast <= 3:
                 ctx.notes["declarator_tree_differs_from_printer_examples"].append({"text": text[-200:], "parser": f.get("ast", "")[-300:], "printer": east[-300:]})
+    # --- the declarator PARSER: the Lean model (DeclParser.lean) vs the real parser, on token strings
+    import itertools
+    REND = {"*": "*", "(": "(", ")": ")", "[": "[", "]": "]", ",": ",", ".": "...", "3": "3", "c": "const", "v": "volatile", "r": "restrict", "a": "_Atomic", "i": "int", "h": "char"}
+    strings = []
+    PALPHA = "*()[],.3xci"
+    for n in range(1, (4 if ctx.quick else 5) + 1):
+        strings += ["".join(t) for t in itertools.product(PALPHA, repeat=n)]
+    def rand_decl(depth, abstract):
+        r = rng.random()
+        if depth <= 0 or r < 0.2:
+            return "" if abstract else "x"
+        if r < 0.45:
+            return "*" + "".join(rng.sample("cvra", rng.choice([0, 0, 1, 2]))) + rand_decl(depth - 1, abstract)
+        inner = rand_decl(depth - 1, abstract)
+        if inner.startswith("*") or (rng.random() < 0.2 and inner):
+            inner = "(" + inner + ")"
+        if r < 0.7:
+            return inner + rng.choice(["[3]", "[]"])
+        k = rng.choice([0, 1, 1, 2, 3])
+        ps = ",".join(rng.choice("ih") + rand_decl(depth - 2, rng.random() < 0.5) for _ in range(k))
+        if k and rng.random() < 0.25:
+            ps += ",."
+        return inner + "(" + ps + ")"
+    # a leading qualifier or specifier belongs to the declaration's specifier list, not to the declarator
+    strings = [st for st in strings if st[0] not in "ci"]
+    for _ in range(4000 if ctx.quick else 60000):
+        d = rand_decl(rng.randrange(1, 7), False)
+        strings.append(d)
+        if rng.random() < 0.3 and d:                      # a mutation: one token dropped or doubled
+            k = rng.randrange(len(d))
+            m_ = d[:k] + d[k + 1:] if rng.random() < 0.5 else d[:k] + d[k] + d[k:]
+            if m_ and m_[0] not in "cvraih":
+                strings.append(m_)
+    plines, mlines2 = [], []
+    for st in strings:
+        n_id = 0
+        parts = []
+        for ch in st:
+            if ch == "x":
+                n_id += 1
+                parts.append("x%d" % n_id)
+            else:
+                parts.append(REND[ch])
+        plines.append("1 " + ("int " + " ".join(parts) + " ;").encode().hex())
+        mlines2.append(st + ";")
+    pimpl = stages.run_harness(ctx, "declarators", plines)
+    pmodel = leanb.model("declparser", "\n".join(mlines2) + "\n")
+    npd = nacc = 0
+    for st, pl, a, m in zip(strings, plines, pimpl, pmodel):
+        f = fields(a) if a.startswith("ast=") else {}
+        # rejected = a parser diagnostic, or the declaration silently missing from the tree (a failure inside a speculative parse whose
+        # delayed diagnostics are dropped)
+        perr = any(d.startswith("Parser-") for d in f.get("diags", "-").split(",")) or f.get("ast", "-").strip() == "-"
+        macc = m != "none" and not m.startswith("bad")
+        mtree = m if macc else None
+        itree = None
+        mm = re.match(r"Dv int (\d+ .*)$", f.get("ast", "").strip())
+        if mm and " ; " not in mm.group(1):
+            itree = mm.group(1).strip()
+        nacc += macc
+        # the model's alphabet has no typedef-name specifiers, qualifier-only specifiers or identifier array sizes: where the
+        # real parser may read such a thing, only the direction "the model accepts => the parser accepts with the same tree" is held
+        ambiguous = re.search(r"[(,\[][xcvra]|[ih][cvraih]", st) is not None
+        if (macc and (perr or itree != mtree)) or (not macc and not perr and a.startswith("ast=") and not ambiguous):
+            npd += 1
+            if npd <= 3:
+                ctx.report("parser:" + st, "declarator tokens %r: the real parser %s%s; the Lean model of parseDeclarator %s"
+                           % (bytes.fromhex(pl.split()[1]).decode(), "rejects them (" + f.get("diags", "?") + ")" if perr else "accepts", "" if perr else " and builds " + str(itree),
+                              "builds " + mtree if macc else "rejects them"),
+                           {"component": "declarators", "case": pl, "theorem": "PsycheModel.DeclParser (correspondence)"}, no_input=True)
+    ctx.notes["parser_model_cases"] = len(strings)
+    ctx.notes["parser_model_accepted"] = nacc
+    ctx.notes["parser_model_disagreements"] = npd
     # the recorded blind spots of symbol-table-free parsing, printed as known findings while they reproduce
     blines = ["1 " + t.encode().hex() for _, t, _ in BLIND]
     for (key, text, want), o in zip(BLIND, stages.run_harness(ctx, "declarators", blines)):
